@@ -28,8 +28,8 @@ m = dict(
                source_commits=[], add_only=True),
     engines=[dict(name="symnp", path="/verif/symnp", serves_properties=[c['property_id'] for c in checks],
                   kind_free_text="z3-backed symbolic execution of mofun's real Python source (numpy on object arrays, solver-decided branches, DFS re-execution), per-path unsat of path AND NOT oracle; counterexamples replayed on the unshimmed code"),
-             dict(name="crosshair", path="/verif/harness/crosshair_kernels.py", serves_properties=[p for p in ('C14', 'C17', 'C19') if claims.get(p, {}).get('claimed')],
-                  kind_free_text="CrossHair 0.0.110 contracts on the pure-Python kernels (typekey, max_bond_length, guess_elements_from_masses)")],
+             dict(name="crosshair", path="/verif/harness/c19_terms.py", serves_properties=[p for p in ('C19',) if claims.get(p, {}).get('claimed')],
+                  kind_free_text="CrossHair 0.0.110 contracts on the pure-Python kernel helpers.typekey (second engine inside the C19 check: every condition must be 'Confirmed over all paths')")],
     checks=checks,
     notes="All claims are bounded (bounds in each evidence file and DESIGN.md section 6); none is a proof. Exit 3 = harness error (never a verdict).",
     not_applicable=na)
